@@ -52,6 +52,10 @@ class SDateTime:
         return True
 
     def astimezone(self, tz=None):
+        import datetime as _real_dt
+
+        if tz is _real_dt.timezone.utc:
+            tz = UTC            # the real constant (e.g. hoisted to a module-level name of the code under verification) is the same zone
         if tz is not UTC:
             # conversion to some other zone: same instant, unknown offset
             off = self.ctx.fresh(IntS, "off")
